@@ -4,7 +4,11 @@ import Mathlib.Tactic.Ring
 /-! The Misra–Gries guarantee of `MG.tidy` / `MG.update` (C07, last sentence).
 
 Everything is proved for a generic capacity (`MG.tidyK k`, `MG.updateK cap`, with `k = cap / 2`) and
-instantiated at `cap = 1024`, `k = 512` (`MG.tidy_eq_tidyK`, `MG.update_eq_updateK` are `rfl`).
+instantiated at the crate's `cap = MG.cap` (the literal of `Vec::with_capacity` in `MisraGries::default()`, regenerated
+from the source: `FC.Generated.mgCapacity`, 1024 as verified), `k = MG.k = MG.cap / 2` (`MG.tidy_eq_tidyK`,
+`MG.update_eq_updateK` are `rfl`). Nothing below evaluates `MG.cap`: the statements are in terms of `MG.cap`, `MG.k` and
+`MG.k + 1` and compile unchanged when the constant is retuned. The one place where its value is looked at is
+Proofs/MGCap.lean (`MG.two_le_cap`, `by decide`).
 
 Summary of the mathematics. Write `est m b` for the summed weight of `b` in the raw list of `m`,
 `trueCount ops b` for the weight inserted for `b`, `total ops` for all the weight inserted. A compaction
@@ -533,8 +537,8 @@ def MG.updateK (cap : Nat) (m : MG) (b : Bytes) (c : Nat) : MG :=
   let m' : MG := ⟨m.inner ++ [(b, c)]⟩
   if m'.inner.length == cap then m'.tidyK (cap / 2) else m'
 
-theorem MG.tidy_eq_tidyK (m : MG) : m.tidy = m.tidyK 512 := rfl
-theorem MG.update_eq_updateK (m : MG) (b : Bytes) (c : Nat) : m.update b c = m.updateK 1024 b c := rfl
+theorem MG.tidy_eq_tidyK (m : MG) : m.tidy = m.tidyK MG.k := rfl
+theorem MG.update_eq_updateK (m : MG) (b : Bytes) (c : Nat) : m.update b c = m.updateK MG.cap b c := rfl
 
 /-- ghost: the largest weight a single key can lose in this compaction, `l[k].2` (= `sub + 1`) if anything
 is dropped, else `0` -/
@@ -720,7 +724,18 @@ theorem MG.runGK_inv (cap : Nat) (ops : List (Bytes × Nat)) :
   rw [← MG.runGK_fst]
   simpa [MG.runGK] using this
 
-/-! ### the crate's summary (`cap = 1024`, `k = 512`) -/
+/-- the invariant with the ghost eliminated, for every capacity -/
+theorem MG.runK_bound (cap : Nat) (ops : List (Bytes × Nat)) (b : Bytes) :
+    (cap / 2 + 1) * cnt ops b + wsum (MG.runK cap ops).inner + (MG.runK cap ops).inner.length ≤
+      (cap / 2 + 1) * cnt (MG.runK cap ops).inner b + wsum ops + ops.length := by
+  obtain ⟨_, hge, hpot, _⟩ := MG.runGK_inv cap ops
+  have h := Nat.mul_le_mul_left (cap / 2 + 1) (hge b)
+  rw [Nat.mul_add] at h
+  generalize cap / 2 + 1 = K at *
+  generalize (MG.runGK cap ops).2 = D at *
+  omega
+
+/-! ### the crate's summary (`cap = MG.cap`, `k = MG.k = MG.cap / 2`; 1024 and 512 in the crate as verified) -/
 
 /-- the weight inserted for `b` -/
 abbrev trueCount (ops : List (Bytes × Nat)) (b : Bytes) : Nat := cnt ops b
@@ -734,18 +749,18 @@ def MG.runFrom (m : MG) (ops : List (Bytes × Nat)) : MG := ops.foldl (fun m (b,
 /-- the summary after inserting `ops` into `MisraGries::default()` -/
 def run (ops : List (Bytes × Nat)) : MG := MG.runFrom ⟨[]⟩ ops
 /-- … with the ghost error budget -/
-def runG (ops : List (Bytes × Nat)) : MG × Nat := MG.runGK 1024 ops
+def runG (ops : List (Bytes × Nat)) : MG × Nat := MG.runGK MG.cap ops
 
-theorem run_eq_runK (ops : List (Bytes × Nat)) : run ops = MG.runK 1024 ops := rfl
-theorem runG_fst (ops : List (Bytes × Nat)) : (runG ops).1 = run ops := MG.runGK_fst 1024 ops
+theorem run_eq_runK (ops : List (Bytes × Nat)) : run ops = MG.runK MG.cap ops := rfl
+theorem runG_fst (ops : List (Bytes × Nat)) : (runG ops).1 = run ops := MG.runGK_fst MG.cap ops
 
 theorem MG.runFrom_append (m : MG) (l l' : List (Bytes × Nat)) :
     MG.runFrom m (l ++ l') = MG.runFrom (MG.runFrom m l) l' := by
   unfold MG.runFrom; rw [List.foldl_append]
 
 /-- the invariant of the summary, at the crate's parameters -/
-theorem mg_invariant (ops : List (Bytes × Nat)) : MGInv 512 ops (run ops) (runG ops).2 :=
-  MG.runGK_inv 1024 ops
+theorem mg_invariant (ops : List (Bytes × Nat)) : MGInv MG.k ops (run ops) (runG ops).2 :=
+  MG.runGK_inv MG.cap ops
 
 /-- the estimate after consolidation is the estimate -/
 theorem est_consolidate (m : MG) (b : Bytes) : cnt (consolidate m.inner) b = est m b := consolidate_cnt _ _
@@ -769,12 +784,9 @@ theorem MG.done_length_le (m : MG) : m.done.length ≤ m.inner.length := ranked_
 
 /-- the invariant with the ghost eliminated -/
 theorem mg_bound (ops : List (Bytes × Nat)) (b : Bytes) :
-    513 * trueCount ops b + wsum (run ops).inner + (run ops).inner.length ≤
-      513 * est (run ops) b + total ops + ops.length := by
-  obtain ⟨_, hge, hpot, _⟩ := mg_invariant ops
-  have := hge b
-  simp only [trueCount, total, est] at *
-  omega
+    (MG.k + 1) * trueCount ops b + wsum (run ops).inner + (run ops).inner.length ≤
+      (MG.k + 1) * est (run ops) b + total ops + ops.length :=
+  MG.runK_bound MG.cap ops b
 
 theorem length_le_wsum {ops : List (Bytes × Nat)} (h : ∀ e ∈ ops, e.2 ≠ 0) : ops.length ≤ wsum ops := by
   induction ops with
@@ -811,28 +823,31 @@ theorem mergedMG_eq_run (srcs : List Dict) : mergedMG srcs = run (srcs.map (·.m
       rfl
   exact key srcs _
 
-/-- the sources' bounds added up: `Σ (513·trueCountₛ + weightₛ + lengthₛ) ≤ Σ (513·estₛ + totalₛ + nₛ)`, with the
-middle terms expressed through the concatenated `done` lists (the operations of the merge) -/
+/-- the sources' bounds added up (`K = MG.k + 1`): `Σ (K·trueCountₛ + weightₛ + lengthₛ) ≤ Σ (K·estₛ + totalₛ + nₛ)`, with
+the middle terms expressed through the concatenated `done` lists (the operations of the merge) -/
 theorem sources_bound (opss : List (List (Bytes × Nat))) (b : Bytes) :
-    513 * (opss.map (trueCount · b)).sum + wsum (opss.map fun o => (run o).done).flatten +
+    (MG.k + 1) * (opss.map (trueCount · b)).sum + wsum (opss.map fun o => (run o).done).flatten +
         (opss.map fun o => (run o).done).flatten.length ≤
-      513 * cnt (opss.map fun o => (run o).done).flatten b + (opss.map fun o => total o + o.length).sum := by
+      (MG.k + 1) * cnt (opss.map fun o => (run o).done).flatten b + (opss.map fun o => total o + o.length).sum := by
+  have hb := fun o => mg_bound o b
+  generalize MG.k + 1 = K at hb ⊢
   induction opss with
   | nil => simp
   | cons o opss ih =>
-    have h1 := mg_bound o b
+    have h1 := hb o
     have h2 := est_done (run o) b
     have h3 := MG.done_wsum (run o)
     have h4 := MG.done_length_le (run o)
     simp only [List.map_cons, List.sum_cons, List.flatten_cons, wsum_append, cnt_append, List.length_append]
-    simp only [trueCount, total, est] at *
+    simp only [trueCount, total, est, Nat.mul_add] at *
+    rw [h2]
     omega
 
 /-- Misra–Gries summaries compose without extra loss: summarising the `done` lists of the summaries of
-`opss` under-counts `b` by at most `(Σ totalₛ + nₛ) / 513` overall -/
+`opss` under-counts `b` by at most `(Σ totalₛ + nₛ) / (MG.k + 1)` overall -/
 theorem merge_bound (opss : List (List (Bytes × Nat))) (b : Bytes) :
-    513 * (opss.map (trueCount · b)).sum ≤
-      513 * est (run (opss.map fun o => (run o).done).flatten) b + (opss.map fun o => total o + o.length).sum := by
+    (MG.k + 1) * (opss.map (trueCount · b)).sum ≤
+      (MG.k + 1) * est (run (opss.map fun o => (run o).done).flatten) b + (opss.map fun o => total o + o.length).sum := by
   have h1 := sources_bound opss b
   have h2 := mg_bound (opss.map fun o => (run o).done).flatten b
   simp only [trueCount, total, est] at *
